@@ -160,6 +160,15 @@ Theorem table_assign_refines : forall (K V : Type) (keq : K -> K -> bool) (hash 
 Proof. exact TableProofs.T_assign_refines. Qed.
 Print Assumptions table_assign_refines.
 
+(* tuning: the resize policy of the working tree (when Table_Resize_More / Table_Resize_Less rehash and to which
+   size, as functions of nitems, re-extracted from the source) is admissible — the refinement theorems above hold
+   for every policy with these three inequalities, for every prime table with a positive last entry and every
+   load factor 0 < num < den (table_ideal_size_gt is all they use) *)
+Theorem table_resize_policy_admissible : forall n : nat,
+  n <= table_grow_trigger n /\ n <= table_grow_target n /\ n <= table_shrink_target n.
+Proof. exact TableProofs.resize_policy_admissible_proof. Qed.
+Print Assumptions table_resize_policy_admissible.
+
 (* slot layout: Table_Size_Round (re-extracted from the source) rounds UP to a multiple of 8, so for
    every element size the key and the value fit into the bytes the slot reserves for them *)
 Theorem size_round_ge : forall s : nat,
@@ -182,10 +191,12 @@ Theorem table_layout_shape : table_layout_shape_ok = true.
 Proof. exact TableProofs.layout_shape_proof. Qed.
 Print Assumptions table_layout_shape.
 
-(* 4. the rule of the pinned source, `if (j >= p)`, does NOT refine the map (defect D1, repaired) *)
+(* 4. the rule of the pinned source, `if (j >= p)`, does NOT refine the map (defect D1, repaired); stated with
+   literal sizes (prime table prefix, load factor 9/10) so that the witness does not depend on tuning *)
 Theorem table_nonstrict_refuted :
   exists (hash : Z -> N) (ops : list (op Z Z)),
-    let t := t_run Z Z Z.eqb hash (fun j p => p <=? j) table_primes table_load_num table_load_den ops (T_empty Z Z) in
+    let t := t_run Z Z Z.eqb hash (fun j p => p <=? j) [0; 1; 5; 11; 23; 53]%N 9%N 10%N ops
+               (t_empty Z Z [0; 1; 5; 11; 23; 53]%N 9%N 10%N) in
     let m := spec_run Z Z Z.eqb ops [] in
     t_len Z Z t = 3 /\ length m = 2 /\
     map fst (t_iter Z Z t) = [55; 110; 55]%Z /\ map fst m = [55; 110]%Z.
